@@ -321,6 +321,7 @@ class Tr:
         self.name = lean_name
         # generic_exc: the function is abstracted over the exception type `ε` with `exc : String → ε` naming built-in classes
         self.generic = generic_exc
+        self.full_ret_ty = None         # methods: (result, mutated attributes...)
         self.exc_ty = "ε" if generic_exc else "String"
         self.env = dict(env)            # python variable -> type
         self.ret_ty = ret_ty
@@ -527,15 +528,23 @@ class Tr:
         isnone = lambda x: isinstance(x, ast.Constant) and x.value is None
         if isinstance(op, (ast.Is, ast.IsNot, ast.Eq, ast.NotEq)) and (isnone(l) or isnone(r)):
             x = self.expr(r if isnone(l) else l)
+            neg = isinstance(op, (ast.IsNot, ast.NotEq))
+            if x.ty in (CHAR, INT, BOOL, TEXT):   # a str / int is never None
+                self.constructs.add("`is None` on a str/int-typed variable -> constant")
+                return self.lift([x], lambda ts: ("true" if neg else "false", BOOL))
             if not (isinstance(x.ty, tuple) and x.ty[0] == "Option"):
                 raise Untranslatable("comparison with None of a value of type %s" % lean_ty(x.ty))
-            neg = isinstance(op, (ast.IsNot, ast.NotEq))
             return self.lift([x], lambda ts: ("(%s).%s" % (ts[0], "isSome" if neg else "isNone"), BOOL))
         if isinstance(op, (ast.In, ast.NotIn)):
             a = self.expr(l)
             if a.ty == CHAR and isinstance(r, ast.Constant) and isinstance(r.value, str):
                 txt = "(%s.contains %s)" if isinstance(op, ast.In) else "(!%s.contains %s)"
                 return self.lift([a], lambda ts: (txt % ("(%s : List Nat)" % _codes(r.value), ts[0]), BOOL))
+            if a.ty == CHAR:
+                b = self.expr(r)
+                if b.ty == TEXT:
+                    txt = "(%s.contains %s)" if isinstance(op, ast.In) else "(!%s.contains %s)"
+                    return self.lift([b, a], lambda ts: (txt % (ts[0], ts[1]), BOOL))
             raise Untranslatable("membership test " + ast.unparse(r))
         # literal strings take the type of the other side (text or one character)
         if isinstance(l, ast.Constant) and isinstance(l.value, str):
@@ -549,7 +558,7 @@ class Tr:
         if isinstance(op, (ast.Eq, ast.NotEq)):
             s = "==" if isinstance(op, ast.Eq) else "!="
             return self.lift([a, b], lambda ts: ("(%s %s %s)" % (ts[0], s, ts[1]), BOOL))
-        if isinstance(op, (ast.Lt, ast.LtE, ast.Gt, ast.GtE)) and a.ty == INT:
+        if isinstance(op, (ast.Lt, ast.LtE, ast.Gt, ast.GtE)) and a.ty in (INT, CHAR):
             s = {ast.Lt: "<", ast.LtE: "≤", ast.Gt: ">", ast.GtE: "≥"}[type(op)]
             return self.lift([a, b], lambda ts: ("(decide (%s %s %s))" % (ts[0], s, ts[1]), BOOL))
         raise Untranslatable("comparison " + type(op).__name__)
@@ -802,6 +811,8 @@ class Tr:
             v = self.fresh() if c.partial else None
             text = "(if %s then\n%s\nelse\n%s)" % (v or c.text, _ind(self.block(s.body, cont)), _ind(self.block(s.orelse, cont)))
             return self.bind(c, v, text) if c.partial else text
+        if isinstance(s, ast.Try) and not s.finalbody and len(s.handlers) == 1 and len(s.body) == 1:
+            return self.try_stmt(s, cont)
         if isinstance(s, ast.For) and not s.orelse:
             return self.for_loop(s, cont)
         if isinstance(s, ast.While) and not s.orelse:
@@ -879,7 +890,7 @@ class Tr:
         binders = "".join(" (%s : %s)" % (v, lean_ty(self.env[v])) for v in free)
         sig = "def %s%s : %s → %sPy.Flow %s %s" % (
             fname, binders, _atom(lean_ty(it.ty)), "".join(_atom(lean_ty(self.env[v])) + " → " for v in state),
-            self.exc_ty + " " + _atom(self._state_ty(state)), _atom(lean_ty(self.ret_ty)))
+            self.exc_ty + " " + _atom(self._state_ty(state)), _atom(lean_ty(self.full_ret_ty or self.ret_ty)))
         stpat = "".join(", " + v for v in state)
         self.aux.append("%s\n  | []%s => .fall %s\n  | %s :: rest__%s =>\n%s\n" % (
             sig, stpat, self._pat(state), self._pat(targets), stpat, _ind(body, 4)))
@@ -910,20 +921,59 @@ class Tr:
         binders = "".join(" (%s : %s)" % (x, lean_ty(self.env[x])) for x in free)
         sig = "def %s%s : Nat → %sPy.Flow %s %s" % (
             fname, binders, "".join(_atom(lean_ty(self.env[x])) + " → " for x in state),
-            self.exc_ty + " " + _atom(self._state_ty(state)), _atom(lean_ty(self.ret_ty)))
+            self.exc_ty + " " + _atom(self._state_ty(state)), _atom(lean_ty(self.full_ret_ty or self.ret_ty)))
         stpat = "".join(", " + x for x in state)
         self.aux.append("%s\n  | 0%s => .raise OUTOFFUEL__\n  | fuel__ + 1%s =>\n%s\n" % (sig, stpat, stpat, _ind(body, 4)))
         call = "(%s)" % " ".join([fname] + free + ["(%s).toNat" % fuel.text] + state)
         return self._after(call, state, cont)
 
+    def try_stmt(self, s, cont):
+        """
+        try: <ONE statement> except Cls / (Cls, ...): HANDLER [else: ELSE]
+        The body is a sub-computation (Flow): it falls through with the variables it assigned, returns, or raises; a raised
+        class listed by the handler runs HANDLER (in the enclosing context: it may break / continue / return / raise),
+        any other propagates. One statement only: no assignment can be half-done when the exception is raised.
+        """
+        if self.generic:
+            raise Untranslatable("try/except in a function abstracted over its exception type")
+        h = s.handlers[0]
+        if h.type is None or h.name is not None:
+            raise Untranslatable("bare except / except ... as name")
+        classes = [ast.unparse(c) for c in (h.type.elts if isinstance(h.type, ast.Tuple) else [h.type])]
+        assigned = self._assigned(s.body)
+        saved = (self.in_loop, getattr(self, "_brk", None), getattr(self, "_cnt", None))
+        self.in_loop, self._brk, self._cnt = True, None, None
+        holder = {}
+
+        def fall():
+            holder["vars"] = [v for v in assigned if v in self.env]
+            return "(.fall %s)" % self._pat(holder["vars"])
+
+        body = self.block(s.body, fall)
+        self.in_loop, self._brk, self._cnt = saved
+        vs = holder.get("vars", [])
+        self.constructs.add("try/except <classes> (one-statement body) -> match on the raised class name")
+        test = " || ".join('e__ == "%s"' % c for c in classes)
+        after = self.block(list(s.orelse), cont) if s.orelse else cont()
+        return ("(match (%s : Py.Flow String %s %s) with\n  | .ret r__ => %s\n  | .raise e__ =>\n    (if %s then\n%s\n    else %s)\n  | .fall %s =>\n%s)"
+                % (body, _atom(self._state_ty(vs)), _atom(lean_ty(self.full_ret_ty or self.ret_ty)), self.ret("r__"), test,
+                   _ind(self.block(h.body, cont), 6), self.err("e__"), self._pat(vs), _ind(after, 4)))
+
     def loop_break(self):
+        if self._brk is None:
+            raise Untranslatable("break / continue directly inside a try body")
+        return self._brk
+
+    def _unused_loop_break(self):
         return self._brk
 
     def loop_continue(self):
+        if self._cnt is None:
+            raise Untranslatable("break / continue directly inside a try body")
         return self._cnt
 
 
-def translate_function(source, name, lean_name, cls=None, params=None, binders=None, ret=None, **kw):
+def translate_function(source, name, lean_name, cls=None, params=None, binders=None, ret=None, self_state=(), **kw):
     """
     Translate the whole function `name` to `def <lean_name> ... : Except String <ret>` (plus one auxiliary definition per
     loop). `params`: python parameter -> type (default: from the annotations); `binders`: Lean binder text replacing the
@@ -933,6 +983,16 @@ def translate_function(source, name, lean_name, cls=None, params=None, binders=N
     pysrc = ast.get_source_segment(source, fn)
     if fn.args.vararg or fn.args.kwarg or fn.args.kwonlyargs or fn.args.defaults:
         raise Untranslatable("signature of " + name)
+    # methods: the attribute `self.X` becomes the variable `self_X`; the attributes in `self_state` are mutable state and are
+    # returned next to the result: `return e` -> (e, self_X...), falling off the end (return None) -> ((), self_X...)
+    class _Self(ast.NodeTransformer):
+        def visit_Attribute(self, node):
+            if isinstance(node.value, ast.Name) and node.value.id == "self":
+                return ast.copy_location(ast.Name(id="self_" + node.attr, ctx=node.ctx), node)
+            return self.generic_visit(node)
+    if cls:
+        fn = _Self().visit(fn)
+        ast.fix_missing_locations(fn)
     for n in ast.walk(fn):   # Python identifiers that are Lean keywords get a trailing underscore
         if isinstance(n, ast.Name) and n.id in LEAN_KEYWORDS:
             n.id += "_"
@@ -941,12 +1001,25 @@ def translate_function(source, name, lean_name, cls=None, params=None, binders=N
     if params is None:
         params = {a.arg: ann_type(a.annotation) for a in fn.args.args if a.arg != "self"}
     ret_ty = ret if ret is not None else ann_type(fn.returns)
+    state = ["self_" + a for a in self_state]
+    inner_ret = ret_ty
+    if state:
+        ret_ty = ("Tuple", inner_ret) + tuple(params[v] for v in state)
     tr = Tr(lean_name, params, ret_ty, **kw)
+    if state:
+        tr.ret_ty = inner_ret            # what `return e` must have; wrapped below
+        tr.full_ret_ty = ret_ty
+        plain_ret = tr.ret
+        tr.ret = lambda text: plain_ret(text) if text == "r__" else plain_ret("(%s, %s)" % (text, ", ".join(state)))
+        tr.constructs.add("method: self.X -> variable self_X; mutated attributes returned next to the result")
 
     def off_the_end():
+        if inner_ret == "Unit":
+            return tr.ret("()")
         raise Untranslatable("control reaches the end of %s without return (returns None)" % name)
 
     body = tr.block(fn.body, off_the_end)
+    tr.ret_ty = ret_ty
     if tr.fuel:
         raise Untranslatable("%d fuel expression(s) of the spec unused: the while loops are gone" % len(tr.fuel))
     if binders is None:
